@@ -215,3 +215,163 @@ Proof.
   ppeek ltac:(apply parses_get_err).
   apply parses_ret_eq. rewrite hu8_id by lia. reflexivity.
 Qed.
+
+(* ------------------------------------------------------------------ the block `if P || B { ... }` *)
+Definition sl_inter (is_p is_b : bool) (npt : N) (tmvp cat_nz : bool) (hs : hsps) (hp : hpps) :=
+  (if is_p || is_b then
+     ov <- rd_flag BR ;;
+     nr <- (if ov then
+              a <- rd_ue BR ;;
+              b <- (if is_b then x <- rd_ue BR ;; ret (u8 x) else ret (pp_l1 hp)) ;;
+              ret (u8 a, b)
+            else ret (pp_l0 hp, pp_l1 hp)) ;;
+     let '(l0, l1) := nr in
+     if (14 <? l0) || (14 <? l1) then fail else
+     rplm <- (if pp_lists_mod hp then
+                let npt1 := match pp_scc hp with
+                            | Some sc => if ps_curr_pic_ref sc then u8 (npt + 1) else npt
+                            | None => npt
+                            end in
+                if 1 <? npt1 then x <- hparse_rplm BR is_b l0 l1 npt1 ;; ret (Some x)
+                else ret None
+              else ret None) ;;
+     mvd <- (if is_b then rd_flag BR else ret false) ;;
+     cab <- (if pp_cabac_init_present hp then rd_flag BR else ret false) ;;
+     col <- (if tmvp then
+               cf <- (if is_b then rd_flag BR else ret true) ;;
+               ci <- (if (cf && (0 <? l0)) || (negb cf && (0 <? l1))
+                      then x <- rd_ue BR ;; ret (u8 x) else ret 0) ;;
+               ret (cf, ci)
+             else ret (true, 0)) ;;
+     pw <- (if (pp_weighted_pred hp && is_p) || (pp_weighted_bipred hp && is_b)
+            then x <- hparse_pwt BR is_b cat_nz l0 l1 ;; ret (Some x) else ret None) ;;
+     fm <- rd_ue BR ;;
+     im <- (match h_scc hs with
+            | Some sc => if ss_mv_res_idc sc =? 2 then rd_flag BR else ret false
+            | None => ret false
+            end) ;;
+     ret (ov, l0, l1, rplm, mvd, cab, fst col, snd col, pw, u8 fm, im)
+   else ret (false, 0, 0, None, false, false, true, 0, None, 0, false)).
+
+Lemma parses_sl_inter raw sp pp v pos :
+  hsps_valid sp = true -> hpps_valid pp = true -> hslice_valid sp pp v = true ->
+  hslice_rps_guard sp pp v = true -> hs_main pp v = true ->
+  parses raw (sl_inter (sx_slice_type v =? 1) (sx_slice_type v =? 0) (go_npt sp pp v) (hs_tmvp sp pp v)
+                       (hs_cat_nz sp) (expected_hsps sp) (expected_hpps pp)) pos
+    (opt_bits (hs_inter pp v) (ser_hslice_inter sp pp v))
+    (hs_override pp v,
+     (if hs_inter pp v then hs_l0 pp v else 0), (if hs_inter pp v then hs_l1 pp v else 0),
+     (if hs_rplm sp pp v
+      then Some (sx_ref_pic_list_modification_flag_l0 v,
+                 (if sx_ref_pic_list_modification_flag_l0 v then sx_list_entry_l0 v else []),
+                 hs_is_b pp v && sx_ref_pic_list_modification_flag_l1 v,
+                 (if hs_is_b pp v && sx_ref_pic_list_modification_flag_l1 v then sx_list_entry_l1 v else []))
+      else None),
+     hs_is_b pp v && sx_mvd_l1_zero_flag v,
+     hs_inter pp v && sx_cabac_init_present_flag pp && sx_cabac_init_flag v,
+     (if hs_inter pp v && hs_tmvp sp pp v then hs_col_l0 pp v else true),
+     (if hs_col_idx sp pp v then sx_collocated_ref_idx v else 0),
+     (if hs_pwt pp v
+      then Some (sx_luma_log2_weight_denom v,
+                 (if hs_cat_nz sp then sx_delta_chroma_log2_weight_denom v else 0%Z),
+                 map (expected_hpwt sp) (sx_pwt_l0 v),
+                 (if hs_is_b pp v then map (expected_hpwt sp) (sx_pwt_l1 v) else []))
+      else None),
+     (if hs_inter pp v then sx_five_minus_max_num_merge_cand v else 0),
+     hs_inter pp v && hs_mvres2 sp && sx_use_integer_mv_flag v).
+Proof.
+  intros Hs Hp Hv Hg Hm.
+  assert (EP : hs_is_p pp v = (sx_slice_type v =? 1)) by (unfold hs_is_p; rewrite Hm; reflexivity).
+  assert (EB : hs_is_b pp v = (sx_slice_type v =? 0)) by (unfold hs_is_b; rewrite Hm; reflexivity).
+  rewrite <- EP, <- EB. unfold sl_inter. fold (hs_inter pp v).
+  destruct (hs_inter pp v) eqn:Hi; cbn [opt_bits andb].
+  2:{ apply parses_ret_eq. unfold hs_inter in Hi. apply Bool.orb_false_elim in Hi. destruct Hi as [HP HB].
+      unfold hs_override, hs_rplm, hs_col_idx, hs_pwt, hs_inter. rewrite HP, HB.
+      rewrite !Bool.andb_false_r. reflexivity. }
+  destruct (hs_l01_le14 sp pp v Hp Hv) as [Hl0 Hl1].
+  assert (Ht : hs_num_pic_total_curr sp pp v < 256) by (unfold hslice_valid in Hv; split_all; lia).
+  assert (Hov : hs_override pp v = sx_num_ref_idx_active_override_flag v)
+    by (unfold hs_override; rewrite Hi; reflexivity).
+  unfold ser_hslice_inter.
+  pbind ltac:(apply parses_flag).
+  (* num_ref_idx_active *)
+  eapply parses_bind.
+  { instantiate (1 := (hs_l0 pp v, hs_l1 pp v)).
+    unfold hs_l0, hs_l1. rewrite Hov. rewrite epp_l0, epp_l1.
+    destruct (sx_num_ref_idx_active_override_flag v); cbn [opt_bits andb]; [|apply parses_ret].
+    pbind ltac:(apply parses_ue).
+    eapply parses_bind_nil.
+    { apply (parses_opt raw _ (hs_is_b pp v) _ (sx_num_ref_idx_l1_active_minus1 v)
+               (sx_num_ref_idx_l1_default_active_minus1 pp)).
+      intros _. plast ltac:(apply parses_ue). apply parses_ret_eq. apply hu8_id.
+      unfold hslice_valid in Hv. split_all. lia. }
+    cbv beta. apply parses_ret_eq. rewrite hu8_id by (unfold hslice_valid in Hv; split_all; lia).
+    reflexivity. }
+  cbv beta iota zeta.
+  replace ((14 <? hs_l0 pp v) || (14 <? hs_l1 pp v)) with false by lia. cbv iota.
+  (* ref_pic_lists_modification *)
+  eapply parses_bind.
+  { instantiate (1 := if hs_rplm sp pp v
+                      then Some (sx_ref_pic_list_modification_flag_l0 v,
+                                 (if sx_ref_pic_list_modification_flag_l0 v then sx_list_entry_l0 v else []),
+                                 hs_is_b pp v && sx_ref_pic_list_modification_flag_l1 v,
+                                 (if hs_is_b pp v && sx_ref_pic_list_modification_flag_l1 v
+                                  then sx_list_entry_l1 v else []))
+                      else None).
+    rewrite epp_lists_mod.
+    destruct (sx_lists_modification_present_flag pp) eqn:Hlm.
+    - rewrite (go_npt1_eq sp pp v Hg Hi Hlm Ht).
+      assert (Hr : hs_rplm sp pp v = (1 <? hs_num_pic_total_curr sp pp v))
+        by (unfold hs_rplm; rewrite Hi, Hlm; reflexivity).
+      rewrite Hr. destruct (1 <? hs_num_pic_total_curr sp pp v) eqn:H1; cbn [opt_bits].
+      + plast ltac:(apply (parses_hrplm raw sp pp v); [exact Hp | exact Hv | rewrite Hr; reflexivity]).
+        apply parses_ret.
+      + apply parses_ret.
+    - assert (Hr : hs_rplm sp pp v = false) by (unfold hs_rplm; rewrite Hi, Hlm; reflexivity).
+      rewrite Hr. apply parses_ret. }
+  cbv beta.
+  pbind ltac:(apply (parses_opt raw _ (hs_is_b pp v) _ (sx_mvd_l1_zero_flag v) false);
+              intros _; apply parses_flag).
+  rewrite epp_cabac_init_present.
+  pbind ltac:(apply (parses_opt raw _ (sx_cabac_init_present_flag pp) _ (sx_cabac_init_flag v) false);
+              intros _; apply parses_flag).
+  (* collocated *)
+  eapply parses_bind.
+  { instantiate (1 := ((if hs_tmvp sp pp v then hs_col_l0 pp v else true),
+                       (if hs_col_idx sp pp v then sx_collocated_ref_idx v else 0))).
+    assert (Hci : hs_col_idx sp pp v
+                  = hs_tmvp sp pp v && ((hs_col_l0 pp v && (0 <? hs_l0 pp v))
+                                        || (negb (hs_col_l0 pp v) && (0 <? hs_l1 pp v))))
+      by (unfold hs_col_idx; rewrite Hi; reflexivity).
+    rewrite Hci.
+    destruct (hs_tmvp sp pp v); cbn [opt_bits andb]; [|apply parses_ret].
+    eapply parses_bind.
+    { apply (parses_opt raw _ (hs_is_b pp v) _ (sx_collocated_from_l0_flag v) true).
+      intros _. apply parses_flag. }
+    cbv beta. fold (hs_col_l0 pp v).
+    eapply parses_bind_nil.
+    { apply (parses_opt raw _ ((hs_col_l0 pp v && (0 <? hs_l0 pp v))
+                               || (negb (hs_col_l0 pp v) && (0 <? hs_l1 pp v))) _
+               (sx_collocated_ref_idx v) 0).
+      intros _. plast ltac:(apply parses_ue). apply parses_ret_eq. apply hu8_id.
+      unfold hslice_valid in Hv. split_all. lia. }
+    cbv beta. apply parses_ret. }
+  cbv beta.
+  (* pred_weight_table *)
+  rewrite epp_weighted_pred, epp_weighted_bipred. fold (hs_pwt pp v).
+  pbind ltac:(apply parses_opt_some; intros Hw; apply (parses_hpwt raw sp pp v); assumption).
+  pbind ltac:(apply parses_ue).
+  (* use_integer_mv_flag *)
+  eapply parses_bind_nil.
+  { instantiate (1 := hs_mvres2 sp && sx_use_integer_mv_flag v).
+    rewrite esp_scc. unfold hs_mvres2.
+    destruct (hsps_ext_on sp sx_sps_scc_extension_flag); cbn [andb opt_bits]; [|apply parses_ret].
+    cbn [ss_mv_res_idc expected_hspsscc].
+    destruct (sx_motion_vector_resolution_control_idc (sx_sps_scc_extension sp) =? 2); cbn [opt_bits andb];
+      [apply parses_flag | apply parses_ret]. }
+  cbv beta. cbn [fst snd].
+  apply parses_ret_eq.
+  rewrite hu8_id by (unfold hslice_valid in Hv; split_all; lia).
+  rewrite Hov.
+  destruct (hs_is_b pp v), (sx_cabac_init_present_flag pp); reflexivity.
+Qed.
